@@ -102,6 +102,7 @@ InitB(e) ==
 InitSt ==
   [ now |-> 0, b |-> [e \in Eps |-> InitB(e)], aq |-> [x \in Bases |-> <<>>],
     log |-> <<>>, ncb |-> 0, closing |-> 0,
+    fs |-> 0,                       \* directed generation: index of the forced script (0 = free generation)
     dv |-> {},                      \* known-finding triggers met so far
     open |-> FALSE,                 \* behaviour the properties leave open was met
     \* ghosts for the properties
@@ -586,6 +587,11 @@ Obs(S, r) == [r |-> r, cb |-> S.log, now |-> S.now, ep |-> [e \in Eps |-> EpObs(
 
 ----------------------------------------------------------------------------
 (* actions *)
+(* Directed families: a check can override Forced (cfg: CONSTANT Forced <- ...) with a sequence of op
+   sequences; generation then follows exactly those scripts (the specification still predicts every observation) *)
+Forced == <<>>
+Bound == IF st.fs = 0 THEN D ELSE Len(Forced[st.fs])
+ForcedOK(op) == IF st.fs = 0 THEN TRUE ELSE (Len(hist) < Len(Forced[st.fs]) /\ op = Forced[st.fs][Len(hist) + 1])
 Has(a) == a \in Acts
 DirSets == {{"R"}, {"W"}, {"R", "W"}}
 (* which known-finding triggers a history has met (bit mask, shipped with the history for the check's bookkeeping) *)
@@ -598,58 +604,60 @@ Step(S1, op, r) ==
   /\ st' = S1
   /\ hist' = Append(hist, op @@ [o |-> Obs(S1, r), kf |-> KfMask(S1.dv)])
 
+AStep(S1, op, r) == ForcedOK(op) /\ Step(S1, op, r)
+
 Quiet(S) == \A x \in Bases : S.aq[x] = <<>>
 IoReady(S) == Kind = "sock" /\ \E e \in {1, 2} : S.b[e].alive /\
                  ((S.b[e].evr /\ (S.b[e].wire > 0 \/ S.b[e].eof)) \/ S.b[e].evw)
 
 Api ==
-  /\ st.closing = 0 /\ Len(hist) < D
+  /\ st.closing = 0 /\ Len(hist) < Bound
   /\ LET S == [st EXCEPT !.log = <<>>] IN
      \/ \E e \in App, n \in Sizes : Has("write") /\ Legal(S, e, "write") /\ n > 0
-          /\ Step(OpWrite(S, e, n), [a |-> "write", e |-> e, n |-> n], 0)
+          /\ AStep(OpWrite(S, e, n), [a |-> "write", e |-> e, n |-> n], 0)
      \/ \E e \in App, m \in {2, 4, 6} : Has("enable") /\ Legal(S, e, "enable") /\ ("R" \in Dirs(m) => ~S.b[e].eofd)
-          /\ Step(OpEnable(S, e, Dirs(m)), [a |-> "enable", e |-> e, m |-> m], 0)
+          /\ AStep(OpEnable(S, e, Dirs(m)), [a |-> "enable", e |-> e, m |-> m], 0)
      \/ \E e \in App, m \in {2, 4, 6} : Has("disable") /\ Legal(S, e, "disable")
-          /\ Step(OpDisable(S, e, Dirs(m)), [a |-> "disable", e |-> e, m |-> m], 0)
+          /\ AStep(OpDisable(S, e, Dirs(m)), [a |-> "disable", e |-> e, m |-> m], 0)
      \/ \E e \in App, w \in WMs : Has("wmr") /\ Legal(S, e, "wm") /\ 10 * S.b[e].rlo + S.b[e].rhi # w
-          /\ Step(OpSetWm(S, e, "R", (w \div 10), (w % 10)), [a |-> "wm", e |-> e, m |-> 2, lo |-> (w \div 10), hi |-> (w % 10)], 0)
+          /\ AStep(OpSetWm(S, e, "R", (w \div 10), (w % 10)), [a |-> "wm", e |-> e, m |-> 2, lo |-> (w \div 10), hi |-> (w % 10)], 0)
      \/ \E e \in App, w \in WMs : Has("wmw") /\ Legal(S, e, "wm") /\ 10 * S.b[e].wlo + S.b[e].whi # w
-          /\ Step(OpSetWm(S, e, "W", (w \div 10), (w % 10)), [a |-> "wm", e |-> e, m |-> 4, lo |-> (w \div 10), hi |-> (w % 10)], 0)
+          /\ AStep(OpSetWm(S, e, "W", (w \div 10), (w % 10)), [a |-> "wm", e |-> e, m |-> 4, lo |-> (w \div 10), hi |-> (w % 10)], 0)
      \/ \E w \in WMs : Has("wmu") /\ Kind = "filt" /\ 10 * S.b[1].wlo + S.b[1].whi # w
-          /\ Step(OpSetWm(S, 1, "W", (w \div 10), (w % 10)), [a |-> "wm", e |-> 1, m |-> 4, lo |-> (w \div 10), hi |-> (w % 10)], 0)
+          /\ AStep(OpSetWm(S, 1, "W", (w \div 10), (w % 10)), [a |-> "wm", e |-> 1, m |-> 4, lo |-> (w \div 10), hi |-> (w % 10)], 0)
      \/ \E e \in App, tr \in Durs, tw \in Durs : Has("tmo") /\ Legal(S, e, "tmo") /\ <<S.b[e].tor, S.b[e].tow>> # <<tr, tw>>
           /\ (Has("tmor") => tw = 0) /\ (Has("tmow") => tr = 0)
-          /\ Step(OpSetTmo(S, e, tr, tw), [a |-> "tmo", e |-> e, tr |-> tr, tw |-> tw], 0)
+          /\ AStep(OpSetTmo(S, e, tr, tw), [a |-> "tmo", e |-> e, tr |-> tr, tw |-> tw], 0)
      \/ \E e \in App, m \in {2, 4, 6}, md \in {1, 2} : Has("flush") /\ Legal(S, e, "flush")
           /\ (md = 2 => Has("finish") /\ ~S.b[e].fin /\ m = 4)
           /\ LET R == OpFlush(S, e, Dirs(m), md)
-             IN Step(R.s, [a |-> "flush", e |-> e, m |-> m, md |-> md], R.r)
+             IN AStep(R.s, [a |-> "flush", e |-> e, m |-> m, md |-> md], R.r)
      \/ \E e \in App : Has("shut") /\ IsSock(e) /\ Legal(S, e, "shut") /\ ~S.b[e].fin /\ S.b[e].out = 0 /\ S.b[e].conn = "ok"
-          /\ Step(OpShut(S, e), [a |-> "shut", e |-> e], 0)
+          /\ AStep(OpShut(S, e), [a |-> "shut", e |-> e], 0)
      \/ \E e \in App : Has("free") /\ Legal(S, e, "free")
-          /\ Step(OpFree(S, e), [a |-> "free", e |-> e], 0)
+          /\ AStep(OpFree(S, e), [a |-> "free", e |-> e], 0)
      \/ \E e \in App : Has("clr") /\ Legal(S, e, "clr") /\ S.b[e].cbs
-          /\ Step([S EXCEPT !.b[e].cbs = FALSE], [a |-> "clr", e |-> e], 0)
+          /\ AStep([S EXCEPT !.b[e].cbs = FALSE], [a |-> "clr", e |-> e], 0)
      \/ Has("connect") /\ Legal(S, 1, "connect")
-          /\ Step(OpConnect(S), [a |-> "connect", e |-> 1, ok |-> IF Conn = "ok" THEN 1 ELSE 0], 0)
+          /\ AStep(OpConnect(S), [a |-> "connect", e |-> 1, ok |-> IF Conn = "ok" THEN 1 ELSE 0], 0)
      \/ \E e \in App, dr \in Drains, xa \in Extras, xk \in XKinds \cup {"r"} :
-          /\ Has("script") /\ Legal(S, e, "script") /\ S.b[e].cbs /\ Len(hist) < ScriptUntil
+          /\ Has("script") /\ Legal(S, e, "script") /\ S.b[e].cbs /\ (Len(hist) < ScriptUntil \/ st.fs # 0)
           /\ <<S.b[e].dr, S.b[e].xa, S.b[e].xk>> # <<dr, xa, xk>> /\ (xa = "none" => xk = "r")
-          /\ Step([S EXCEPT !.b[e].dr = dr, !.b[e].xa = xa, !.b[e].xk = xk],
+          /\ AStep([S EXCEPT !.b[e].dr = dr, !.b[e].xa = xa, !.b[e].xk = xk],
                   [a |-> "script", e |-> e, dr |-> dr, xa |-> xa, xk |-> xk], 0)
      \/ \E x \in Bases, t \in Durs : Has("loop")
           /\ (t > 0 /\ Kind = "sock" => Quiet(S) /\ ~IoReady(S))
-          /\ LET S1 == LoopOp(S, x, t) IN Step(S1, [a |-> "loop", e |-> x, t |-> t], 0)
+          /\ LET S1 == LoopOp(S, x, t) IN AStep(S1, [a |-> "loop", e |-> x, t |-> t], 0)
 
 (* closing steps: flush out every latent timer / pending callback *)
 Closing ==
-  /\ Len(hist) >= D /\ st.closing < 2 * Cardinality(Bases)
+  /\ Len(hist) >= Bound /\ st.closing < 2 * Cardinality(Bases)
   /\ LET x == IF Kind = "sock" THEN 1 + (st.closing % 2) ELSE 1
          t == IF Kind = "sock" /\ (~Quiet(st) \/ IoReady(st)) THEN 0 ELSE TEnd
          S1 == [LoopOp(st, x, t) EXCEPT !.closing = @ + 1]
      IN Step(S1, [a |-> "loop", e |-> x, t |-> t], 0)
 
-Init == st = InitSt /\ hist = <<>>
+Init == hist = <<>> /\ \E k \in (IF Forced = <<>> THEN {0} ELSE 1..Len(Forced)) : st = [InitSt EXCEPT !.fs = k]
 Next == Api \/ Closing
 Spec == Init /\ [][Next]_vars
 
@@ -693,7 +701,7 @@ DlOf(S, p) == IF p[2] = "r" THEN S.b[p[1]].rdl ELSE S.b[p[1]].wdl
 NoTies == \A p, q \in Deadlines(st) : (p # q /\ Base(p[1]) = Base(q[1])) => DlOf(st, p) # DlOf(st, q)
 AvoidKnown == st.dv \subseteq Allow
 WireOK == \A e \in Eps : st.b[e].wire <= WireCap
-GenConstraint == Len(hist) <= D + 4 /\ NoTies /\ ~st.open /\ AvoidKnown /\ WireOK
+GenConstraint == Len(hist) <= Bound + 4 /\ NoTies /\ ~st.open /\ AvoidKnown /\ WireOK
 Emit == (st.closing = 2 * Cardinality(Bases) /\ AvoidKnown /\ ~st.open /\ WireOK) => PrintT(ToJson(hist))
 StateView == <<st>>
 =============================================================================
